@@ -15,9 +15,17 @@ TRUSTED = ["C07: that every deleting / renaming rule consults `preserve` is exam
 ASSUMPTIONS = []
 
 
+# programs on which the abstraction step changes the text, so that the second fix loop of format_code runs
+SECOND_LOOP = [
+    "RETRIES = 3\n\n\nclass Registry:\n    limit = 10\n\n    def get(self, key):\n        entry = self.items[key]\n        return entry\n\n    def unusedOne(self):\n        return 1\n\n\ndef make_registry():\n    r = Registry()\n    return r\n",
+    "def labels():\n    return ['a-long-literal-number-one', 'a-long-literal-number-one', 'a-long-literal-number-one', 'a-long-literal-number-one', 'a-long-literal-number-one']\n\n\ndef unusedTwo(v):\n    w = v + 1\n    return w\n\n\nspareValue = 4\n",
+    "class Shape:\n    SIDES = 4\n\n    def area(self, w, h):\n        total = w * h\n        return total\n\n    @staticmethod\n    def unit():\n        value = 1\n        return value\n\n\nhelperVal = Shape.unit()\n",
+]
+
+
 def safeset_suite(ctx):
     s = Suite("safeset")
-    srcs = pc.LIB_TEMPLATES + [src for (_sha, src, _f) in sweep.pick(sweep.generated_corpus(), ctx, 20) + sweep.pick(sweep.generated_corpus2(), ctx, 20)]
+    srcs = pc.LIB_TEMPLATES + SECOND_LOOP + [src for (_sha, src, _f) in sweep.pick(sweep.generated_corpus(), ctx, 20) + sweep.pick(sweep.generated_corpus2(), ctx, 20)]
     reqs, metas = [], []
     for src in srcs:
         for pres in ([], ["extra_name", "helper"]):
@@ -35,10 +43,18 @@ def safeset_suite(ctx):
             continue
         if set(ans.get("safe", [])) != real:
             s.disagreements.append({"src": src, "preserve": pres, "model": sorted(ans.get("safe", [])), "real": sorted(real), "what": "the safe-mode preserve set differs from the model"})
+            continue
+        # every rule call that takes a preserve set, anywhere in the run (first fix loop, naming, the loop after the abstraction step), gets that set
+        for (label, got) in pc.capture_all_preserve(src, frozenset(pres)):
+            s.count(label)
+            if set(got) != real:
+                s.disagreements.append({"src": src, "preserve": pres, "rule": label, "model": sorted(ans.get("safe", [])), "real": sorted(got),
+                                        "what": f"{label} is called with another preserve set than the safe-mode set (missing: {sorted(real - set(got))[:6]})"})
+                break
         if len(real) > len(pres):
             s.nt([src, pres])
     s.samples.append({"suite": "safeset", "src": pc.LIB_TEMPLATES[1][:120], "safe_set": ["Greeter", "Greeter.Meth", "Greeter.build", "Greeter.greeting", "Greeter.helper", "Greeter.myVal", "make"]})
-    s.note = "6 library-like templates + corpus programs x 2 caller preserve sets: the set format_code(safe=True) passes to _multi_run_fixes (captured) vs safeSet of the module summary"
+    s.note = "library-like templates + 3 programs that reach the second fix loop + corpus programs x 2 caller preserve sets: the set format_code(safe=True) passes to _multi_run_fixes (captured) vs safeSet of the module summary; then the real pipeline is run and the preserve argument of EVERY rule call that takes one must be that set (histogram = such calls per rule)"
     return s
 
 
